@@ -934,6 +934,34 @@ def bi_dict_keys(ex, e):
     return V(VList(d.keys))
 
 
+def _seq_like(ex, e):
+    v = ex.evv(e.args[0])
+    kind, seq = ex.seq_parts(v, e)
+    if kind is None:
+        kind, seq = 'dyn', z3.If(is_tuple(v), get_items(v), get_elems(v))
+    return v, kind, seq
+
+
+def bi_init(ex, e):
+    """init(xs): xs without its last element (xs[:-1] for a non-empty xs, stated without the case
+    distinctions of Python's slice normalisation)"""
+    v, kind, seq = _seq_like(ex, e)
+    if kind == 'str':
+        return V(VStr(z3.SubString(seq, 0, z3.Length(seq) - 1)))
+    sub = z3.SubSeq(seq, 0, z3.Length(seq) - 1)
+    if kind == 'dyn':
+        return V(z3.If(is_tuple(v), VTuple(sub), VList(sub)))
+    return V(VTuple(sub) if kind == 'tuple' else VList(sub))
+
+
+def bi_last(ex, e):
+    """last(xs): the last element (xs[-1] for a non-empty xs)"""
+    v, kind, seq = _seq_like(ex, e)
+    if kind == 'str':
+        return V(VStr(z3.SubString(seq, z3.Length(seq) - 1, 1)))
+    return V(seq[z3.Length(seq) - 1])
+
+
 def bi_seq_eq(ex, e):
     a = seq_term(ex, ex.ev(e.args[0]), e)
     b = seq_term(ex, ex.ev(e.args[1]), e)
